@@ -3,6 +3,9 @@
 R2.1 DEGENERATE-RECEIVER  a member that asserts `!marked_empty()` on entry (read from the
      assertion-enabled view) is never called on *this on a path where the receiver may have
      become empty since it was last known non-empty
+R2.2 DIMENSION-ALIGNMENT  every dimension-changing member edits or withdraws both descriptions
+R2.3 COLLAPSE-WITNESS     set_zero_dim_univ() on a receiver of positive dimension only where the
+     state entails non-emptiness (shared engine: rules/precond.py)
 The set-theoretic content of the operators (signs, invertibility split, epsilon encoding) is numeric: not decided.
 """
 from pplv import facts as F
@@ -270,6 +273,14 @@ def r2_2(ctx):
     ctx.floor(rid, n, 7, "dimension-changing members of Polyhedron")
 
 
+def r2_3(ctx):
+    from rules import precond
+    rid = "R2.3"
+    ctx.rule(rid, "collapse to the universe needs a witness: a call of set_zero_dim_univ() on a receiver of positive dimension (zero-dimensional branches are pruned) is reached, on every CFG path, only in a state that entails non-emptiness — the false edge of is_empty(), a true result of minimize() / update_generators() / process_pending_*(), or a complete generator description of an object not marked empty; otherwise removing all dimensions of an empty polyhedron that has not been found empty yet yields the universe instead of the empty set")
+    n = precond.discharge(ctx, rid, {}, only_callees=("set_zero_dim_univ",))
+    ctx.floor(rid, n, 6, "set_zero_dim_univ call sites")
+
+
 def run(ctx):
     ctx.explanation = ("C02 degenerate-receiver clause: typestate (maybe-empty / known non-empty) of the receiver along all CFG paths to the call sites of members "
                        "that assert non-emptiness; decides this clause, not which set the operators compute")
@@ -277,3 +288,4 @@ def run(ctx):
                        "every other conjunct of the asserted preconditions (up-to-date, pending) is not tracked"]
     r2_1(ctx)
     r2_2(ctx)
+    r2_3(ctx)
